@@ -1514,3 +1514,211 @@ func E7FaceWithoutCache(c *core.Ctx, r *core.Report) {
 	r.Count("E7.face-without-cache", n)
 	r.Floor("E7.face-without-cache", 1)
 }
+
+// poolPutEscapes reports, for one function, every object taken from a sync.Pool and put back in the same function:
+// ok tells whether nothing derived from it is still referred to by a returned value.
+func poolPutEscapes(info *types.Info, fd *ast.FuncDecl, src func(ast.Node) string, report func(obj types.Object, pos token.Pos, ok bool, what string)) {
+	isPool := func(e ast.Expr) bool {
+		t := info.TypeOf(e)
+		if t == nil {
+			return false
+		}
+		if pt, ok := t.(*types.Pointer); ok {
+			t = pt.Elem()
+		}
+		nt, ok := t.(*types.Named)
+		return ok && nt.Obj().Name() == "Pool" && nt.Obj().Pkg() != nil && (nt.Obj().Pkg().Path() == "sync" || nt.Obj().Pkg().Name() == "sync")
+	}
+	got := map[types.Object]token.Pos{}
+	var order []types.Object
+	ast.Inspect(fd.Body, func(m ast.Node) bool {
+		as, ok := m.(*ast.AssignStmt)
+		if !ok || len(as.Lhs) != len(as.Rhs) {
+			return true
+		}
+		for i, rhs := range as.Rhs {
+			hit := false
+			ast.Inspect(rhs, func(k ast.Node) bool {
+				if call, ok := k.(*ast.CallExpr); ok {
+					if se, ok := call.Fun.(*ast.SelectorExpr); ok && se.Sel.Name == "Get" && isPool(se.X) {
+						hit = true
+					}
+				}
+				return true
+			})
+			if hit {
+				if id, ok := as.Lhs[i].(*ast.Ident); ok {
+					if o := core.ObjOf(info, id); o != nil {
+						if _, dup := got[o]; !dup {
+							order = append(order, o)
+						}
+						got[o] = as.Pos()
+					}
+				}
+			}
+		}
+		return true
+	})
+	if len(got) == 0 {
+		return
+	}
+	put := map[types.Object]bool{}
+	ast.Inspect(fd.Body, func(m ast.Node) bool {
+		call, ok := m.(*ast.CallExpr)
+		if !ok || len(call.Args) != 1 {
+			return true
+		}
+		if se, ok := call.Fun.(*ast.SelectorExpr); ok && se.Sel.Name == "Put" && isPool(se.X) {
+			ast.Inspect(call.Args[0], func(k ast.Node) bool {
+				if id, ok := k.(*ast.Ident); ok {
+					if _, isGot := got[core.ObjOf(info, id)]; isGot {
+						put[core.ObjOf(info, id)] = true
+					}
+				}
+				return true
+			})
+		}
+		return true
+	})
+	for _, o := range order {
+		if !put[o] {
+			continue
+		}
+		derived := map[types.Object]bool{o: true}
+		mentions := func(e ast.Node) bool {
+			hit := false
+			ast.Inspect(e, func(k ast.Node) bool {
+				if id, ok := k.(*ast.Ident); ok && derived[core.ObjOf(info, id)] {
+					hit = true
+				}
+				return !hit
+			})
+			return hit
+		}
+		for changed := true; changed; {
+			changed = false
+			ast.Inspect(fd.Body, func(m ast.Node) bool {
+				as, ok := m.(*ast.AssignStmt)
+				if !ok || len(as.Lhs) != len(as.Rhs) {
+					return true
+				}
+				for i, l := range as.Lhs {
+					lid, ok := l.(*ast.Ident)
+					if !ok {
+						continue
+					}
+					lo := core.ObjOf(info, lid)
+					if lo == nil || derived[lo] || !mentions(as.Rhs[i]) {
+						continue
+					}
+					switch lo.Type().Underlying().(type) {
+					case *types.Slice, *types.Pointer, *types.Map, *types.Signature, *types.Interface:
+						derived[lo] = true
+						changed = true
+					}
+				}
+				return true
+			})
+		}
+		bad, found := "", false
+		var badPos token.Pos
+		ast.Inspect(fd.Body, func(m ast.Node) bool {
+			rs, ok := m.(*ast.ReturnStmt)
+			if !ok || found {
+				return true
+			}
+			for _, res := range rs.Results {
+				if _, isBasic := info.TypeOf(res).Underlying().(*types.Basic); isBasic {
+					continue // a number or string computed from the buffer is a copy
+				}
+				if mentions(res) {
+					found = true
+					bad, badPos = src(res), res.Pos()
+					if len(bad) > 80 {
+						bad = bad[:80] + "…"
+					}
+				}
+			}
+			return true
+		})
+		if !found {
+			report(o, got[o], true, "")
+		} else {
+			report(o, badPos, false, bad)
+		}
+	}
+}
+
+// E7PoolPutEscapes: memory given back to a pool is not still reachable from what the function hands out.
+func E7PoolPutEscapes(c *core.Ctx, r *core.Report) {
+	r.Rule("E7.pool-put-escapes", "a sync.Pool hands an object to whoever asks next, on any goroutine. In every function of the module that takes an object from a pool and puts it back (also by defer), nothing derived from that object — the object, slices cut from it, locals of reference type assigned from those — is mentioned in a returned value of reference type (a slice, pointer, map, interface or function literal): otherwise the memory is in the pool while the caller still reads it, and the next Get — from an unrelated call — overwrites it. A Chebyshev approximation returned as a closure over pooled coefficient storage is silently replaced by the next approximation built anywhere. Module-wide; no function of the tree takes and returns a pooled object in one body today, so a built-in example is evaluated on every run")
+	{
+		srcText := `package sync
+type Pool struct{ New func() any }
+func (p *Pool) Get() any { return nil }
+func (p *Pool) Put(x any) {}
+var pool Pool
+func leaks(n int) func(int) float64 {
+	buf := pool.Get().([]float64)
+	defer pool.Put(buf)
+	c := buf[:n]
+	return func(i int) float64 { return c[i] }
+}
+func copies(n int) float64 {
+	buf := pool.Get().([]float64)
+	defer pool.Put(buf)
+	s := 0.0
+	for _, v := range buf[:n] { s += v }
+	return s
+}
+func keeps(n int) []float64 {
+	buf := pool.Get().([]float64)
+	return buf[:n]
+}
+`
+		fset := token.NewFileSet()
+		f, err := parser.ParseFile(fset, "selftest.go", srcText, 0)
+		if err != nil {
+			panic(core.Infra("pool-put-escapes self-test does not parse: " + err.Error()))
+		}
+		info := &types.Info{Types: map[ast.Expr]types.TypeAndValue{}, Uses: map[*ast.Ident]types.Object{}, Defs: map[*ast.Ident]types.Object{}, Selections: map[*ast.SelectorExpr]*types.Selection{}}
+		if _, err := (&types.Config{}).Check("sync", fset, []*ast.File{f}, info); err != nil {
+			panic(core.Infra("pool-put-escapes self-test does not type-check: " + err.Error()))
+		}
+		got := ""
+		for _, d := range f.Decls {
+			if fd, ok := d.(*ast.FuncDecl); ok && fd.Body != nil {
+				poolPutEscapes(info, fd, func(ast.Node) string { return "" }, func(o types.Object, _ token.Pos, ok bool, _ string) {
+					got += fmt.Sprintf("%s:%s:%v ", fd.Name.Name, o.Name(), ok)
+				})
+			}
+		}
+		if got != "leaks:buf:false copies:buf:true " {
+			panic(core.Infra("pool-put-escapes self-test: recogniser answers `" + got + "`"))
+		}
+		r.Count("E7.pool-put-escapes-selftest", 2)
+	}
+	n := 0
+	for _, rel := range modulePkgRels {
+		p := c.Pkg(rel)
+		if p == nil {
+			continue
+		}
+		for _, fd := range core.AllFuncDecls(p) {
+			if fd.Body == nil || strings.HasSuffix(c.Fset.Position(fd.Pos()).Filename, "_test.go") {
+				continue
+			}
+			fd := fd
+			poolPutEscapes(p.TypesInfo, fd, c.Src, func(o types.Object, pos token.Pos, ok bool, what string) {
+				n++
+				key := fmt.Sprintf("%s.%s|pooled `%s` does not outlive its Put", p.Types.Name(), core.FuncName(fd), o.Name())
+				if ok {
+					r.OK("E7.pool-put-escapes", key, c.Pos(pos), "")
+				} else {
+					r.Fail("E7.pool-put-escapes", key, c.Pos(pos), fmt.Sprintf("`%s` is put back into the pool in this function, yet the value returned (`%s`) still refers to it or to memory cut from it: the next Get from any call on any goroutine hands the same memory out again and overwrites what the caller of this function is still using", o.Name(), what))
+				}
+			})
+		}
+	}
+	r.Count("E7.pool-put-escapes", n)
+}
